@@ -27,7 +27,8 @@ def ob_remove(n):
         def q(T):
             return {'delegations': [{'validator': T.string(v), 'amount': T.value(U128(a)), 'denom': 'usei'} for v, a in zip(W.vals, W.del_amounts)],
                     'full_delegations': [{'validator': '*', 'present': T.leaf(has_d, 'bool'), 'amount': T.value(U128(W.removed_amount)),
-                                          'can_redelegate': T.value(U128(W.can_redelegate))}]}
+                                          'can_redelegate': T.value(U128(W.can_redelegate))}],
+                    'chain_validators': [T.string(v) for v in W.chain_vals]}
         raw_scenario(W, 'execute', msg, W.owner, querier=q)
         nok = 0
         registered = z3.Or(*[target.id == v.id for v in W.vals])
